@@ -98,33 +98,33 @@ Proof. vm_compute. reflexivity. Qed.
    (what was read so far, False) where the model's load fails; an exception never escapes. *)
 Theorem C07_source_load_from_file_is_model :
   forall (ws : N -> bool) (pfloat : pstr -> option float) (encb : N -> bool) (reason : pstr)
-         (copen : pstr -> pstr -> option (list pstr)) (lb : N -> bool) (filename encoding : pstr) (text : str),
-  copen filename encoding = Some (lines_keep lb text) ->
+         (copen : pstr -> pstr -> option pstr -> option (list pstr)) (lb : N -> bool) (filename encoding : pstr) (text : str),
+  copen filename encoding (Some surrogateescape) = Some (lines_keep lb text) ->
   agrees (py_load_from_file F64ops ws pfloat (enc_of encb reason) copen [] filename encoding)
          (load_guesser lb ws pfloat encb (onfail_of_reason reason) text).
 Proof. exact load_from_file_is_load_guesser. Qed.
 
 Theorem C07_source_load_from_file_no_file :
   forall (ws : N -> bool) (pfloat : pstr -> option float) (encb : N -> bool) (reason : pstr)
-         (copen : pstr -> pstr -> option (list pstr)) gs (filename encoding : pstr),
-  copen filename encoding = None ->
+         (copen : pstr -> pstr -> option pstr -> option (list pstr)) gs (filename encoding : pstr),
+  copen filename encoding (Some surrogateescape) = None ->
   py_load_from_file F64ops ws pfloat (enc_of encb reason) copen gs filename encoding = Done (gs, false).
 Proof. exact load_from_file_no_file. Qed.
 
 Theorem C07_source_load_from_file_never_raises :
   forall (ws : N -> bool) (pfloat : pstr -> option float) (encb : N -> bool) (reason : pstr)
-         (copen : pstr -> pstr -> option (list pstr)) (filename encoding : pstr),
+         (copen : pstr -> pstr -> option pstr -> option (list pstr)) (filename encoding : pstr),
   exists gs b, py_load_from_file F64ops ws pfloat (enc_of encb reason) copen [] filename encoding = Done (gs, b).
 Proof. exact load_from_file_total. Qed.
 
 (* C07_roundtrip_guesser restated over the translated function *)
 Theorem C07_roundtrip_guesser_translated :
   forall (repr : float -> str) (pfloat : str -> option float) (encb : N -> bool) (reason : pstr)
-         (copen : pstr -> pstr -> option (list pstr)) (filename encoding : pstr) (l : list (str * float)),
+         (copen : pstr -> pstr -> option pstr -> option (list pstr)) (filename encoding : pstr) (l : list (str * float)),
     Forall (fun it => safe (fst it) = true /\ float_ok repr pfloat (snd it)) l ->
     Forall (fun it => forallb encb (write_line repr it) = true) l ->
     Forall (fun it => okbF (snd it) = true) l ->
-    copen filename encoding = Some (lines_keep LB (write_file repr l)) ->
+    copen filename encoding (Some surrogateescape) = Some (lines_keep LB (write_file repr l)) ->
     py_load_from_file F64ops WS pfloat (enc_of encb reason) copen [] filename encoding
       = Done (map item_of (group_by_prob l), true)
     /\ flat_map (@it_values float) (map item_of (group_by_prob l)) = map fst l.
@@ -134,8 +134,8 @@ Proof. exact roundtrip_guesser_translated. Qed.
    exactly what the model reader returns: the counter as filled so far and True / False *)
 Theorem C07_source_scorer_load_from_file_is_model :
   forall (ws : N -> bool) (pfloat : pstr -> option float) (encb : N -> bool) (reason : pstr)
-         (copen : pstr -> pstr -> option (list pstr)) (lb : N -> bool) (filename encoding : pstr) (text : str),
-  copen filename encoding = Some (lines_keep lb text) ->
+         (copen : pstr -> pstr -> option pstr -> option (list pstr)) (lb : N -> bool) (filename encoding : pstr) (text : str),
+  copen filename encoding (Some surrogateescape) = Some (lines_keep lb text) ->
   py_scorer_load_from_file F64ops ws pfloat (enc_of encb reason) copen [] filename encoding =
   Done (snd (load_scorer lb ws pfloat encb (onfail_of_reason reason) text),
         fst (load_scorer lb ws pfloat encb (onfail_of_reason reason) text)).
@@ -143,29 +143,29 @@ Proof. exact scorer_load_from_file_is_load_scorer. Qed.
 
 Theorem C07_source_scorer_load_from_file_no_file :
   forall (ws : N -> bool) (pfloat : pstr -> option float) (encb : N -> bool) (reason : pstr)
-         (copen : pstr -> pstr -> option (list pstr)) d (filename encoding : pstr),
-  copen filename encoding = None ->
+         (copen : pstr -> pstr -> option pstr -> option (list pstr)) d (filename encoding : pstr),
+  copen filename encoding (Some surrogateescape) = None ->
   py_scorer_load_from_file F64ops ws pfloat (enc_of encb reason) copen d filename encoding = Done (d, false).
 Proof. exact scorer_load_from_file_no_file. Qed.
 
 (* C07_roundtrip_scorer restated over the translated function *)
 Theorem C07_roundtrip_scorer_translated :
   forall (repr : float -> str) (pfloat : str -> option float) (encb : N -> bool) (reason : pstr)
-         (copen : pstr -> pstr -> option (list pstr)) (filename encoding : pstr) (l : list (str * float)),
+         (copen : pstr -> pstr -> option pstr -> option (list pstr)) (filename encoding : pstr) (l : list (str * float)),
     Forall (fun it => safe (fst it) = true /\ float_ok repr pfloat (snd it)) l ->
     Forall (fun it => forallb encb (write_line repr it) = true) l ->
     NoDup (map fst l) ->
-    copen filename encoding = Some (lines_keep LB (write_file repr l)) ->
+    copen filename encoding (Some surrogateescape) = Some (lines_keep LB (write_file repr l)) ->
     py_scorer_load_from_file F64ops WS pfloat (enc_of encb reason) copen [] filename encoding = Done (l, true).
 Proof. exact roundtrip_scorer_translated. Qed.
 
 (* the guesser's reader of Omen/omen_keyspace.txt (load_omen_keyspace), translated: rstrip, split on
    TAB, int() of the first two fields, the dict filled in file order, nothing caught *)
 Theorem C07_source_load_omen_keyspace_is_spec :
-  forall (ws : N -> bool) (pint : pstr -> option Z) (sopen : pstr -> pstr -> option (list pstr))
+  forall (ws : N -> bool) (pint : pstr -> option Z) (sopen : pstr -> pstr -> option pstr -> option (list pstr))
          (pjoin : list pstr -> pstr) (dir encoding : pstr),
   py_load_omen_keyspace ws pint sopen pjoin dir encoding =
-  match sopen (pjoin [dir; omen_dir; omen_keyspace_txt]) encoding with
+  match sopen (pjoin [dir; omen_dir; omen_keyspace_txt]) encoding None with
   | Some lines => keyspace_items ws pint lines []
   | None => Fail EIO
   end.
@@ -173,7 +173,7 @@ Proof. exact load_omen_keyspace_eq. Qed.
 
 (* hypotheses satisfiable: the two-line file of C07_example through the translated reader *)
 Theorem C07_source_example :
-  py_load_from_file F64ops WS pf1 (enc_of (fun _ => true) []) (fun _ _ => Some (lines_keep LB (write_file rp1 [([32; 97; 32]%N, 0.5%float); ([233; 128512]%N, 0.5%float)]))) [] [] []
+  py_load_from_file F64ops WS pf1 (enc_of (fun _ => true) []) (fun _ _ _ => Some (lines_keep LB (write_file rp1 [([32; 97; 32]%N, 0.5%float); ([233; 128512]%N, 0.5%float)]))) [] [] []
   = Done ([{| it_values := [[32; 97; 32]%N; [233; 128512]%N]; it_prob := 0.5%float |}], true).
 Proof. vm_compute. reflexivity. Qed.
 
